@@ -263,7 +263,9 @@ def harnesses(tier, seed):
                 call = f"ob_layout(C, v, z, cuts, negs, bs, {skip})"
                 hs.append(Harness(f"l2.layout.{tag}.{name}", "props.l3",
                                   f"v: {a}, z: int, cuts: Tuple[{nb}], negs: Tuple[{nb}], bs: int",
-                                  call + "[0]", replay_call=call, setup=f"C = case({name!r}, {th})", what=f"block layouts of {name} ({tag})"))
+                                  call + "[0]", replay_call=call, setup=f"C = case({name!r}, {th})", what=f"block layouts of {name} ({tag})",
+                                  samples=[(v, 5, (True,) * (3 if th else 2), (i == 0,) * (3 if th else 2), 9)
+                                           for i, v in enumerate(shape.samples(c["x"], c["names"], c["cfg"], seed + 11, n=2))]))
             call = f"ob_cut(C, v, z, cut, {skip})"
             hs.append(Harness(f"l2.cut.{tag}.{name}", "props.l3", f"v: {a}, z: int, cut: int",
                               call + "[0]", replay_call=call, setup=f"C = case({name!r}, {th})", what=f"truncated encoding of {name} ({tag})"))
